@@ -1,69 +1,86 @@
 ---- MODULE HealthCheckLoop ----
 (* Check-id protocol of the session checker loop (pkg/upstream/healthcheck/session_checker.go Start /
    OnCheck / OnTimeout), the part of C16 behind "for every sequence of success/failure/timeout results":
-   every check is counted exactly once, as its answer when it answered before its timeout, as a failure
-   otherwise, and a late answer is never counted.
+   ONE check contributes exactly ONE result - its answer when it answered before its timeout, a failure
+   otherwise - and a late answer or a late timeout signal is never counted, wherever it arrives.
    Goroutines: the loop (select on resp / timeout), one OnCheck goroutine per check (reads the shared
    check id, arms the timeout timer, calls the session, sends resp{id, answer}), one timer goroutine per
-   armed timeout (sends on timeout).  Both channels are rendezvous channels.
-   Assumptions (timing facts of the code, not of the property): the loop is idle while a check is in
-   progress, so a fired timeout is taken before anything else happens to that check (PromptLoop); the
-   next check starts an interval after the previous one was counted, i.e. after the loop updated the id.
-   Named way to go wrong: "StaleAdvancesId" = the id advances on every loop iteration, also when an
-   expired answer is dropped (the code before the fix). *)
+   armed timeout (sends timeout{id}).  Both channels are rendezvous channels, so a sender waits until the
+   loop takes its message: a late answer can be taken in every position relative to the later checks.
+   The only timing fact assumed: the next check starts an interval after the previous one was counted.
+   Named ways to go wrong (Defects):
+     "StaleAdvancesId"   the id advances on every loop iteration, also when an expired answer is dropped
+     "TimeoutWithoutId"  the timeout signal carries no id: a signal taken after the answer of the same check
+                         counts again
+     "IdTakenByCheck"    every check takes a new id when it starts and the loop compares with the latest id
+                         handed out: the id of a finished check stays current until the next check starts *)
 EXTENDS Integers, Sequences, FiniteSets, TLC
 
 CONSTANTS N,        \* number of checks
-          Defects   \* {} | {"StaleAdvancesId"}
+          Defects
 
 Checks == 1..N
 VARIABLES checkID,  \* shared atomic id
-          cur,      \* id the loop is waiting for
-          sched,    \* number of checks whose timer has been created
+          cur,      \* id the loop is waiting for (unused with "IdTakenByCheck")
+          sched,    \* number of check timers created so far
           cpc,      \* check -> "idle" | "run" | "ready" | "done"
-          cid,      \* check -> id read by OnCheck
+          cid,      \* check -> id read / taken by OnCheck
           ans,      \* check -> "ok" | "fail" (what the session answered)
-          intime,   \* check -> the session answered before the timeout fired
+          intime,   \* check -> "yes" answered while the timer was armed and taken before it fired
+                    \*          "either" answer and timeout signal were both pending  | "no" | "?" not answered yet
           tmo,      \* check -> "none" | "armed" | "fired" | "taken" | "stopped"
           counted   \* sequence of results the loop handed to HandleSuccess / HandleFailure
 vars == <<checkID, cur, sched, cpc, cid, ans, intime, tmo, counted>>
 
-Init == /\ checkID = 1 /\ cur = 1 /\ sched = 1
+ByCheck == "IdTakenByCheck" \in Defects
+Cur == IF ByCheck THEN checkID ELSE cur
+
+Init == /\ checkID = (IF ByCheck THEN 0 ELSE 1) /\ cur = 1 /\ sched = 1
         /\ cpc = [k \in Checks |-> "idle"] /\ cid = [k \in Checks |-> 0] /\ ans = [k \in Checks |-> "fail"]
-        /\ intime = [k \in Checks |-> FALSE] /\ tmo = [k \in Checks |-> "none"] /\ counted = <<>>
+        /\ intime = [k \in Checks |-> "?"] /\ tmo = [k \in Checks |-> "none"] /\ counted = <<>>
 
 OnCheck(k) == /\ k <= sched /\ cpc[k] = "idle"
-              /\ cid' = [cid EXCEPT ![k] = checkID] /\ tmo' = [tmo EXCEPT ![k] = "armed"]
-              /\ cpc' = [cpc EXCEPT ![k] = "run"]
-              /\ UNCHANGED <<checkID, cur, sched, ans, intime, counted>>
-Answer(k, a) == /\ cpc[k] = "run" /\ tmo[k] # "fired"          \* PromptLoop
-                /\ ans' = [ans EXCEPT ![k] = a] /\ intime' = [intime EXCEPT ![k] = (tmo[k] = "armed")]
-                /\ cpc' = [cpc EXCEPT ![k] = "ready"]
+              /\ \A j \in Checks : j < k => cpc[j] # "idle"
+              /\ IF ByCheck THEN checkID' = checkID + 1 /\ cid' = [cid EXCEPT ![k] = checkID + 1]
+                            ELSE checkID' = checkID /\ cid' = [cid EXCEPT ![k] = checkID]
+              /\ tmo' = [tmo EXCEPT ![k] = "armed"] /\ cpc' = [cpc EXCEPT ![k] = "run"]
+              /\ UNCHANGED <<cur, sched, ans, intime, counted>>
+Answer(k, a) == /\ cpc[k] = "run"
+                /\ ans' = [ans EXCEPT ![k] = a] /\ cpc' = [cpc EXCEPT ![k] = "ready"]
+                /\ intime' = [intime EXCEPT ![k] = CASE tmo[k] = "armed" -> "yes" [] tmo[k] = "fired" -> "either" [] OTHER -> "no"]
                 /\ UNCHANGED <<checkID, cur, sched, cid, tmo, counted>>
-Fire(k) == /\ tmo[k] = "armed" /\ cpc[k] # "ready"             \* an answer waiting at the channel is taken first
-           /\ \A j \in Checks : cpc[j] # "ready"
+Fire(k) == /\ tmo[k] = "armed"
            /\ tmo' = [tmo EXCEPT ![k] = "fired"]
-           /\ UNCHANGED <<checkID, cur, sched, cpc, cid, ans, intime, counted>>
+           /\ intime' = [intime EXCEPT ![k] = IF cpc[k] = "ready" THEN "either" ELSE @]   \* answer waiting, not taken yet
+           /\ UNCHANGED <<checkID, cur, sched, cpc, cid, ans, counted>>
 
-Advance == checkID' = checkID + 1 /\ cur' = checkID + 1
+Advance == IF ByCheck THEN UNCHANGED <<checkID, cur>> ELSE checkID' = checkID + 1 /\ cur' = checkID + 1
 Count(r) == counted' = Append(counted, r) /\ sched' = IF sched < N THEN sched + 1 ELSE sched
 
 RecvResp(k) == /\ cpc[k] = "ready" /\ cpc' = [cpc EXCEPT ![k] = "done"]
-               /\ IF cid[k] = cur
+               /\ IF cid[k] = Cur
                   THEN /\ Count(ans[k]) /\ Advance
                        /\ tmo' = [j \in Checks |-> IF j = k /\ tmo[j] = "armed" THEN "stopped" ELSE tmo[j]]
                   ELSE /\ UNCHANGED <<counted, sched, tmo>>
                        /\ IF "StaleAdvancesId" \in Defects THEN Advance ELSE UNCHANGED <<checkID, cur>>
                /\ UNCHANGED <<cid, ans, intime>>
 RecvTimeout(k) == /\ tmo[k] = "fired" /\ tmo' = [tmo EXCEPT ![k] = "taken"]
-                  /\ Count("fail") /\ Advance
+                  /\ IF "TimeoutWithoutId" \in Defects \/ cid[k] = Cur
+                     THEN Count("fail") /\ Advance
+                     ELSE UNCHANGED <<counted, sched, checkID, cur>>
                   /\ UNCHANGED <<cpc, cid, ans, intime>>
 
 Next == \E k \in Checks : OnCheck(k) \/ Fire(k) \/ RecvResp(k) \/ RecvTimeout(k) \/ \E a \in {"ok", "fail"} : Answer(k, a)
 Spec == Init /\ [][Next]_vars
 
-(* the k-th counted result belongs to check k (checks are sequential) and is what the property says *)
-CountedRight == \A k \in 1..Len(counted) : counted[k] = IF intime[k] THEN ans[k] ELSE "fail"
-(* a check that answered in time is counted when its answer is taken, not later by its own timeout *)
-NoSpuriousTimeout == \A k \in Checks : tmo[k] = "fired" => ~intime[k]
+Started == Cardinality({k \in Checks : cpc[k] # "idle"})
+(* one check, one result: never more results than checks started *)
+OneResultPerCheck == Len(counted) <= Started
+(* a check that is over (answer taken or dropped, timer stopped or its signal taken) has been counted *)
+NoCheckLost == \A k \in Checks : (cpc[k] = "done" /\ tmo[k] \in {"taken", "stopped"}) => Len(counted) >= k
+(* the k-th result belongs to check k (checks are sequential) and is what the property says *)
+CountedRight == \A k \in 1..Len(counted) : k <= Started =>
+                  CASE intime[k] = "yes" -> counted[k] = ans[k]
+                    [] intime[k] = "either" -> counted[k] \in {ans[k], "fail"}
+                    [] OTHER -> counted[k] = "fail"
 ====
